@@ -1,8 +1,12 @@
 import SphericalVerif.Model.Object
 import SphericalVerif.Props.HKernel
-/-! Helper lemmas for the object-level properties C08 / C09 / C15 / C17 (core Lean only). -/
+/-! Helper lemmas for the object-level properties C08 / C09 / C15 / C17 (core Lean only).
+
+    The pattern: every output entry of the `Wigner` methods depends on the workspace only through a few values
+    `Hat st ℓ m' m` (congruence lemmas below); after `runH` these are wedge cells, which `HKernel.runH_pure` /
+    `HKernel.runH_size_indep` show to be independent of the previous content and of the configuration. -/
 namespace Lemmas.Object
-open Model Spec
+open Model Spec Scalar
 
 /-! ### the wedge representative -/
 
@@ -24,5 +28,306 @@ theorem wedgeRep_snd_le (mp m : Int) (ell : Nat) (h1 : mp.natAbs ≤ ell) (h2 : 
     (wedgeRep mp m).2.toNat ≤ ell := by
   unfold wedgeRep
   split <;> split <;> (simp only []; omega)
+
+/-! ### loops -/
+
+theorem loopN_congr {σ : Type} (n : Nat) (f g : Nat → σ → σ) (s : σ)
+    (h : ∀ k, k < n → ∀ s, f k s = g k s) : loopN n f s = loopN n g s := by
+  induction n with
+  | zero => rfl
+  | succ n ih =>
+    simp only [loopN]
+    rw [ih (fun k hk => h k (Nat.lt_succ_of_lt hk)), h n (Nat.lt_succ_self n)]
+
+/-- a loop that threads a state and appends one output per element -/
+def threadOut {σ β γ : Type} (step : σ → β → σ) (out : σ → β → γ) : σ → List β → List γ
+  | _, [] => []
+  | st, x :: xs => out st x :: threadOut step out (step st x) xs
+
+theorem foldl_thread {σ β γ : Type} (step : σ → β → σ) (out : σ → β → γ) (xs : List β) (st : σ) (acc : List γ) :
+    (xs.foldl (fun (a : σ × List γ) x => (step a.1 x, a.2 ++ [out a.1 x])) (st, acc)).2
+      = acc ++ threadOut step out st xs := by
+  induction xs generalizing st acc with
+  | nil => simp [threadOut]
+  | cons x xs ih => simp only [List.foldl_cons, threadOut]; rw [ih]; simp
+
+/-- if the output does not depend on the threaded state, the loop is a `map` -/
+theorem threadOut_eq_map {σ β γ : Type} (step : σ → β → σ) (out : σ → β → γ) (st st' : σ) (xs : List β)
+    (h : ∀ x, x ∈ xs → ∀ a b : σ, out a x = out b x) : threadOut step out st xs = xs.map (out st') := by
+  induction xs generalizing st with
+  | nil => rfl
+  | cons x xs ih =>
+    simp only [threadOut, List.map_cons]
+    rw [h x (List.mem_cons_self ..) st st', ih _ (fun y hy => h y (List.mem_cons_of_mem _ hy))]
+
+section
+variable {α : Type} [Scalar α] {μ₁ : Type} [Mem μ₁ α] {μ₂ : Type} [Mem μ₂ α]
+
+/-! ### the shared Horner core of `_evaluate_Horner` and `_rotate_Horner` -/
+
+/-- one Horner step, over an abstract row `H` of the H matrix -/
+def hornerStep (F : Int → Cx α) (H : Int → α) (za : Cx α) (ell : Nat) (k : Nat) (p : Cx α × Cx α × Int) :
+    Cx α × Cx α × Int :=
+  let m : Int := (ell : Int) - 1 - k
+  let (neg, pos, e) := p
+  let e := e * (-1)
+  let neg := Cx.add (Cx.mul neg (Cx.conj za)) (Cx.mulr (F (-m)) (H (-m)))
+  let pos := Cx.add (Cx.mul pos za) (Cx.mulr (Cx.mul (Cx.ofRe (ofInt e)) (F m)) (H m))
+  (neg, pos, e)
+
+def hornerCore (F : Int → Cx α) (H : Int → α) (za : Cx α) (ell : Nat) : Cx α :=
+  let zab := Cx.conj za
+  let f0 : Cx α := Cx.mulr (F 0) (H 0)
+  if ell = 0 then f0 else
+  let e0 : Int := (-1) ^ ell
+  let neg0 : Cx α := Cx.mulr (F (-(ell : Int))) (H (-(ell : Int)))
+  let pos0 : Cx α := Cx.mulr (Cx.mul (Cx.ofRe (ofInt e0)) (F ell)) (H ell)
+  let (neg, pos, _) := loopN (ell - 1) (hornerStep F H za ell) (neg0, pos0, e0)
+  Cx.add (Cx.add f0 (Cx.mul neg zab)) (Cx.mul pos za)
+
+theorem evalEll_eq_core (st : μ₁) (f : Array (Cx α)) (za : Cx α) (s : Int) (ell : Nat) :
+    evalEll (α := α) st f za s ell
+      = hornerCore (fAt f ell) (fun m' => Hat (α := α) st ell m' (-s)) za ell := rfl
+
+theorem rotateHornerEntry_eq_core (st : μ₁) (f : Array (Cx α)) (za : Cx α) (zgpow : Int → Cx α) (ell : Nat)
+    (m : Int) :
+    rotateHornerEntry (α := α) st f za zgpow ell m
+      = Cx.mul (hornerCore (fAt f ell) (fun n => Hat (α := α) st ell n m) za ell)
+          (Cx.mul (Cx.ofRe (ofInt (eps (-m)))) (zgpow m)) := rfl
+
+/-- the core reads `H` only at orders `|m'| ≤ ℓ` -/
+theorem hornerCore_congr (F : Int → Cx α) (H₁ H₂ : Int → α) (za : Cx α) (ell : Nat)
+    (h : ∀ m' : Int, m'.natAbs ≤ ell → H₁ m' = H₂ m') : hornerCore F H₁ za ell = hornerCore F H₂ za ell := by
+  unfold hornerCore
+  simp only []
+  rw [h 0 (by omega), h (-(ell : Int)) (by omega), h ell (by omega),
+    loopN_congr (ell - 1) (hornerStep F H₁ za ell) (hornerStep F H₂ za ell) _ (fun k hk p => by
+      unfold hornerStep
+      simp only []
+      rw [h (-((ell : Int) - 1 - k)) (by omega), h ((ell : Int) - 1 - k) (by omega)])]
+
+/-! ### every entry depends on the workspace only through `Hat` -/
+
+theorem dEntry_congr (st₁ : μ₁) (st₂ : μ₂) (ell : Nat) (mp m : Int)
+    (h : Hat (α := α) st₁ ell mp m = Hat (α := α) st₂ ell mp m) :
+    dEntry (α := α) st₁ ell mp m = dEntry (α := α) st₂ ell mp m := by
+  unfold dEntry; rw [h]
+
+/-- … and on the power arrays only through the entries `|m'|` and `|m|` -/
+theorem DEntry_congr (st₁ : μ₁) (st₂ : μ₂) (za₁ zg₁ za₂ zg₂ : Array (Cx α)) (ell : Nat) (mp m : Int)
+    (h : Hat (α := α) st₁ ell mp m = Hat (α := α) st₂ ell mp m)
+    (ha : cget za₁ mp.natAbs = cget za₂ mp.natAbs) (hg : cget zg₁ m.natAbs = cget zg₂ m.natAbs) :
+    DEntry (α := α) st₁ za₁ zg₁ ell mp m = DEntry (α := α) st₂ za₂ zg₂ ell mp m := by
+  have e1 : (-m).toNat = m.natAbs ∨ 0 ≤ m := by omega
+  have e2 : m.toNat = m.natAbs ∨ m < 0 := by omega
+  have e3 : (-mp).toNat = mp.natAbs ∨ 0 ≤ mp := by omega
+  have e4 : mp.toNat = mp.natAbs ∨ mp < 0 := by omega
+  unfold DEntry
+  simp only []
+  rw [h]
+  by_cases hm : m < 0 <;> by_cases hmp : mp < 0
+  · rw [if_pos hm, if_pos hmp, if_pos hm, if_pos hmp, e1.resolve_right (by omega), e3.resolve_right (by omega), ha, hg]
+  · rw [if_pos hm, if_neg hmp, if_pos hm, if_neg hmp, e1.resolve_right (by omega), e4.resolve_right (by omega), ha, hg]
+  · rw [if_neg hm, if_pos hmp, if_neg hm, if_pos hmp, e2.resolve_right (by omega), e3.resolve_right (by omega), ha, hg]
+  · rw [if_neg hm, if_neg hmp, if_neg hm, if_neg hmp, e2.resolve_right (by omega), e4.resolve_right (by omega), ha, hg]
+
+theorem sYlmEntry_congr (st₁ : μ₁) (st₂ : μ₂) (za₁ za₂ : Array (Cx α)) (zgpow : Cx α) (s : Int) (ell : Nat)
+    (m : Int) (h : s.natAbs ≤ ell → Hat (α := α) st₁ ell m (-s) = Hat (α := α) st₂ ell m (-s))
+    (ha : cget za₁ m.natAbs = cget za₂ m.natAbs) :
+    sYlmEntry (α := α) st₁ za₁ zgpow s ell m = sYlmEntry (α := α) st₂ za₂ zgpow s ell m := by
+  have e1 : (-m).toNat = m.natAbs ∨ 0 ≤ m := by omega
+  have e2 : m.toNat = m.natAbs ∨ m < 0 := by omega
+  unfold sYlmEntry
+  by_cases hs : (ell : Int) < (s.natAbs : Int)
+  · rw [if_pos hs, if_pos hs]
+  · rw [if_neg hs, if_neg hs]
+    simp only []
+    rw [h (by omega)]
+    by_cases hm : m < 0
+    · rw [if_pos hm, if_pos hm, e1.resolve_right (by omega), ha]
+    · rw [if_neg hm, if_neg hm, e2.resolve_right (by omega), ha]
+
+theorem evalEll_congr (st₁ : μ₁) (st₂ : μ₂) (f : Array (Cx α)) (za : Cx α) (s : Int) (ell : Nat)
+    (h : ∀ m' : Int, m'.natAbs ≤ ell → Hat (α := α) st₁ ell m' (-s) = Hat (α := α) st₂ ell m' (-s)) :
+    evalEll (α := α) st₁ f za s ell = evalEll (α := α) st₂ f za s ell := by
+  rw [evalEll_eq_core, evalEll_eq_core]
+  exact hornerCore_congr _ _ _ za ell h
+
+theorem evaluateHorner_congr (st₁ : μ₁) (st₂ : μ₂) (f : Array (Cx α)) (za zgpow : Cx α) (s : Int) (ellMax : Nat)
+    (init : Cx α)
+    (h : ∀ (ell : Nat) (m' : Int), s.natAbs ≤ ell → ell ≤ ellMax → m'.natAbs ≤ ell →
+      Hat (α := α) st₁ ell m' (-s) = Hat (α := α) st₂ ell m' (-s)) :
+    evaluateHorner (α := α) st₁ f za zgpow s ellMax init = evaluateHorner (α := α) st₂ f za zgpow s ellMax init := by
+  unfold evaluateHorner
+  simp only []
+  rw [loopN_congr (ellMax + 1 - s.natAbs)
+    (fun k (acc : Cx α) => Cx.add acc (Cx.mulr (evalEll (α := α) st₁ f za s (s.natAbs + k))
+      (sqrt (ofInt (2 * ((s.natAbs + k : Nat) : Int) + 1) *. inv4pi))))
+    (fun k (acc : Cx α) => Cx.add acc (Cx.mulr (evalEll (α := α) st₂ f za s (s.natAbs + k))
+      (sqrt (ofInt (2 * ((s.natAbs + k : Nat) : Int) + 1) *. inv4pi)))) init
+    (fun k hk acc => by
+      rw [evalEll_congr st₁ st₂ f za s (s.natAbs + k) (fun m' hm' => h _ m' (by omega) (by omega) hm')])]
+
+theorem evaluateHornerK_congr (st₁ : μ₁) (st₂ : μ₂) (f : Array (Cx α)) (za zgpow : Cx α) (s : Int) (ellMax : Nat)
+    (prev₁ prev₂ : Cx α)
+    (h : ∀ (ell : Nat) (m' : Int), s.natAbs ≤ ell → ell ≤ ellMax → m'.natAbs ≤ ell →
+      Hat (α := α) st₁ ell m' (-s) = Hat (α := α) st₂ ell m' (-s)) :
+    evaluateHornerK (α := α) st₁ f za zgpow s ellMax prev₁ = evaluateHornerK (α := α) st₂ f za zgpow s ellMax prev₂ := by
+  unfold evaluateHornerK
+  exact evaluateHorner_congr st₁ st₂ f za zgpow s ellMax _ h
+
+theorem rotateHornerEntry_congr (st₁ : μ₁) (st₂ : μ₂) (f : Array (Cx α)) (za : Cx α) (zgpow : Int → Cx α)
+    (ell : Nat) (m : Int)
+    (h : ∀ n : Int, n.natAbs ≤ ell → Hat (α := α) st₁ ell n m = Hat (α := α) st₂ ell n m) :
+    rotateHornerEntry (α := α) st₁ f za zgpow ell m = rotateHornerEntry (α := α) st₂ f za zgpow ell m := by
+  rw [rotateHornerEntry_eq_core, rotateHornerEntry_eq_core, hornerCore_congr _ _ _ za ell h]
+
+/-! ### `Hat` after `runH` -/
+
+/-- after `runH`, `Hat` reads a wedge cell, whose value depends neither on the configuration (as long as the
+    cell exists in it) nor on the representation or previous content of the workspace -/
+theorem Hat_runH_agree [LawfulMem μ₁ α] [LawfulMem μ₂ α]
+    (L₁ P₁ L₂ P₂ : Nat) (h₁ : P₁ ≤ L₁) (h₂ : P₂ ≤ L₂) (c s : α) (st₁ : μ₁) (st₂ : μ₂) (ell : Nat) (mp m : Int)
+    (hl₁ : ell ≤ L₁) (hl₂ : ell ≤ L₂) (hmp : mp.natAbs ≤ ell) (hm : m.natAbs ≤ ell)
+    (hP₁ : mp.natAbs ≤ P₁ ∨ m.natAbs ≤ P₁) (hP₂ : mp.natAbs ≤ P₂ ∨ m.natAbs ≤ P₂) :
+    Hat (α := α) (runH L₁ P₁ c s st₁) ell mp m = Hat (α := α) (runH L₂ P₂ c s st₂) ell mp m := by
+  have a := wedgeRep_fst_le mp m
+  have b := wedgeRep_fst_le_snd mp m
+  have d := wedgeRep_snd_le mp m ell hmp hm
+  unfold Hat
+  simp only []
+  exact HKernel.runH_size_indep L₁ P₁ L₂ P₂ h₁ h₂ c s st₁ st₂ ell _ _ hl₁ (by omega) hl₂ (by omega) b d
+
+end
+
+/-! ### `_complex_powers`: entry k does not depend on the length of the array -/
+section cpow
+variable {α : Type} [Scalar α]
+
+theorem cget_set!_self (a : Array (Cx α)) (i : Nat) (v : Cx α) (h : i < a.size) :
+    cget (a.set! i v) i = v := by
+  simp [cget, h]
+
+theorem cget_set!_ne (a : Array (Cx α)) (i j : Nat) (v : Cx α) (h : i ≠ j) :
+    cget (a.set! i v) j = cget a j := by
+  simp [cget, Array.getD_eq_getD_getElem?, h]
+
+theorem cget_replicate (n i : Nat) (v : Cx α) (h : i < n) :
+    cget (Array.replicate n v) i = v := by
+  simp [cget, h]
+
+/-- the body of the main loop of `cpowers` -/
+def cpBody (θ : Cx α) (t : α) (k : Nat) (p : Array (Cx α) × Cx α × Cx α) :
+    Array (Cx α) × Cx α × Cx α :=
+  let zm := Cx.add (cget p.1 (k+1)) p.2.1
+  let out := p.1.set! (k+2) zm
+  (out.set! (k+1) (Cx.mul (cget out (k+1)) p.2.2), Cx.add p.2.1 (Cx.rmul t zm), Cx.mul p.2.2 θ)
+
+def cpDc (s : α) : α := ofInt (-2) *. (s *. s)
+
+def cpDz0 (zr : Cx α) (dc : α) : Cx α :=
+  Cx.add (Cx.rmul dc (Cx.add Cx.oneC (Cx.mul (Cx.ofRe (ofInt 2)) zr)))
+         (Cx.mulr Cx.I (sqrt ((neg dc) *. (ofInt 2 +. dc))))
+
+theorem cpowers_eq (z : Cx α) (M : Nat) (imsqrt : Cx α → α) :
+    cpowers z M imsqrt =
+      if M = 0 then Array.replicate (M+1) Cx.oneC else
+      let q := quadrant 4 (Cx.oneC : Cx α) z
+      let dc := cpDc (imsqrt q.2)
+      let r := loopN (M-1) (cpBody q.1 (ofInt 2 *. dc))
+        ((Array.replicate (M+1) Cx.oneC).set! 1 q.2, cpDz0 q.2 dc, q.1)
+      r.1.set! M (Cx.mul (cget r.1 M) r.2.2) := rfl
+
+/-- the recurrence of `_complex_powers` as a sequence that does not mention the array: element `j` is
+    (unrotated power `j+1`, increment, clock) -/
+def cpSeq (θ zr dz0 : Cx α) (t : α) : Nat → Cx α × Cx α × Cx α
+  | 0 => (zr, dz0, θ)
+  | j+1 =>
+    let p := cpSeq θ zr dz0 t j
+    let zm := Cx.add p.1 p.2.1
+    (zm, Cx.add p.2.1 (Cx.rmul t zm), Cx.mul p.2.2 θ)
+
+/-- entry `j+1` of `_complex_powers(z, M)`, as an expression in `z` only -/
+def cpEntry (z : Cx α) (imsqrt : Cx α → α) (j : Nat) : Cx α :=
+  let q := quadrant 4 (Cx.oneC : Cx α) z
+  let dc := cpDc (imsqrt q.2)
+  let p := cpSeq q.1 q.2 (cpDz0 q.2 dc) (ofInt 2 *. dc) j
+  Cx.mul p.1 p.2.2
+
+theorem cpowers_entry_zero (z : Cx α) (M : Nat) (imsqrt : Cx α → α) :
+    cget (cpowers z M imsqrt) 0 = Cx.oneC := by
+  rw [cpowers_eq]
+  by_cases hM : M = 0
+  · subst hM; simp [cget]
+  · simp only [hM, if_false]
+    generalize (quadrant 4 Cx.oneC z).1 = θ
+    generalize (quadrant 4 Cx.oneC z).2 = zr
+    generalize ofInt 2 *. cpDc (imsqrt zr) = t
+    generalize cpDz0 zr (cpDc (imsqrt zr)) = dz0
+    have hinv := loopN_inv
+      (fun (_ : Nat) (p : Array (Cx α) × Cx α × Cx α) => cget p.1 0 = Cx.oneC)
+      (M-1) (cpBody θ t) ((Array.replicate (M+1) Cx.oneC).set! 1 zr, dz0, θ)
+      (by rw [cget_set!_ne _ _ _ _ (by omega), cget_replicate _ _ _ (by omega)])
+      (fun k s _ hp => by
+        show cget (Array.set! _ _ _) _ = _
+        rw [cget_set!_ne _ _ _ _ (by omega), cget_set!_ne _ _ _ _ (by omega)]; exact hp)
+    rw [cget_set!_ne _ _ _ _ (by omega)]
+    exact hinv
+
+theorem cpowers_entry_succ (z : Cx α) (M : Nat) (imsqrt : Cx α → α) (j : Nat) (hj : j < M) :
+    cget (cpowers z M imsqrt) (j + 1) = cpEntry z imsqrt j := by
+  have hM : M ≠ 0 := by omega
+  rw [cpowers_eq]
+  unfold cpEntry
+  simp only [hM, if_false]
+  generalize (quadrant 4 Cx.oneC z).1 = θ
+  generalize (quadrant 4 Cx.oneC z).2 = zr
+  generalize ofInt 2 *. cpDc (imsqrt zr) = t
+  generalize cpDz0 zr (cpDc (imsqrt zr)) = dz0
+  have hinv := loopN_inv
+    (fun (k : Nat) (p : Array (Cx α) × Cx α × Cx α) =>
+      p.1.size = M + 1
+      ∧ (∀ i, i < k → cget p.1 (i + 1) = Cx.mul (cpSeq θ zr dz0 t i).1 (cpSeq θ zr dz0 t i).2.2)
+      ∧ cget p.1 (k + 1) = (cpSeq θ zr dz0 t k).1
+      ∧ p.2.1 = (cpSeq θ zr dz0 t k).2.1 ∧ p.2.2 = (cpSeq θ zr dz0 t k).2.2)
+    (M-1) (cpBody θ t) ((Array.replicate (M+1) Cx.oneC).set! 1 zr, dz0, θ)
+    ⟨by simp, fun i hi => absurd hi (Nat.not_lt_zero i),
+     by rw [cget_set!_self _ _ _ (by simp; omega)]; rfl, rfl, rfl⟩
+    (fun k p hk hp => by
+      obtain ⟨h1, h2, h3, h4, h5⟩ := hp
+      refine ⟨by simp [cpBody, h1], ?_, ?_, ?_, ?_⟩
+      · intro i hi
+        show cget (Array.set! _ _ _) _ = _
+        by_cases hik : i = k
+        · subst hik
+          rw [cget_set!_self _ _ _ (by simp [h1]; omega), cget_set!_ne _ _ _ _ (by omega), h3, h5]
+        · rw [cget_set!_ne _ _ _ _ (by omega), cget_set!_ne _ _ _ _ (by omega)]
+          exact h2 i (by omega)
+      · show cget (Array.set! _ _ _) _ = _
+        rw [cget_set!_ne _ _ _ _ (by omega), cget_set!_self _ _ _ (by rw [h1]; omega), h3, h4]
+        rfl
+      · show Cx.add _ _ = _
+        rw [h3, h4]; rfl
+      · show Cx.mul _ _ = _
+        rw [h5]; rfl)
+  generalize loopN (M-1) _ _ = r at *
+  obtain ⟨h1, h2, h3, h4, h5⟩ := hinv
+  by_cases hjM : j + 1 = M
+  · subst hjM
+    rw [cget_set!_self _ _ _ (by rw [h1]; omega)]
+    have e : j + 1 - 1 = j := by omega
+    rw [e] at h3 h5
+    rw [h3, h5]
+  · rw [cget_set!_ne _ _ _ _ (by omega)]
+    exact h2 j (by omega)
+
+/-- entry `k ≤ M` of `_complex_powers(z, M)` is the same expression for every `M` (every arithmetic) -/
+theorem cpowers_entry_indep (z : Cx α) (M₁ M₂ : Nat) (imsqrt : Cx α → α) (k : Nat) (h₁ : k ≤ M₁) (h₂ : k ≤ M₂) :
+    cget (cpowers z M₁ imsqrt) k = cget (cpowers z M₂ imsqrt) k := by
+  cases k with
+  | zero => rw [cpowers_entry_zero, cpowers_entry_zero]
+  | succ j => rw [cpowers_entry_succ z M₁ imsqrt j (by omega), cpowers_entry_succ z M₂ imsqrt j (by omega)]
+
+end cpow
 
 end Lemmas.Object
